@@ -51,6 +51,16 @@ impl Cx {
             _ => return Err(format!("unsupported callee `{}`", ts(&c.func))),
         };
         let f = f.trim_start_matches("crate::relations::").to_string();
+        if let Some(Bnd::Fun { term }) = self.lookup(&f).cloned() {
+            if c.args.len() != 1 {
+                return Err("function value applied to several arguments".into());
+            }
+            let (a, aty) = self.expr(&c.args[0], pres)?;
+            if aty != Ty::Node {
+                return Err("function value applied to a non-node".into());
+            }
+            return Ok((format!("{} {}", term, paren(&a)), Ty::opt(Ty::NodeId)));
+        }
         match f.as_str() {
             "Some" => {
                 let (t, ty) = self.expr(&c.args[0], pres)?;
@@ -94,6 +104,23 @@ impl Cx {
                 return Ok((format!("match {} with O => None | S _ => Some {} end", t, paren(&t)), Ty::opt(Ty::NzNat)));
             }
             "NodeStamp::default" => return Ok(("0%Z".into(), Ty::Stamp)),
+            "DoubleEndedIter::new" | "Iter::new" => {
+                // fn new(arena, x: impl Into<Option<NodeId>>, ..): each argument is a NodeId or an Option<NodeId>
+                let args = self.args_no_arena(&c.args, pres)?;
+                let mut ts_ = vec![];
+                for (t, ty) in args {
+                    match ty {
+                        Ty::NodeId => ts_.push(format!("Some {}", paren(&t))),
+                        Ty::Opt(_) => ts_.push(t),
+                        other => return Err(format!("{} argument of type {:?}", f, other)),
+                    }
+                }
+                return match (f.as_str(), ts_.len()) {
+                    ("Iter::new", 1) => Ok((ts_[0].clone(), Ty::IterSt)),
+                    ("DoubleEndedIter::new", 2) => Ok((format!("({}, {})", ts_[0], ts_[1]), Ty::DeSt)),
+                    _ => Err(format!("{} arity", f)),
+                };
+            }
             _ => {}
         }
         // Type::assoc_fn(..) or free function of the crate
@@ -154,6 +181,7 @@ impl Cx {
             Ty::Stamp => vec!["NodeStamp"],
             Ty::Range => vec!["SiblingsRange", "DetachedSiblingsRange"],
             Ty::Edge => vec!["NodeEdge"],
+            Ty::TravSt => vec![if self.cur_key.starts_with("ReverseTraverse") { "ReverseTraverse" } else { "Traverse" }],
             _ => vec![],
         };
         for c in cands {
